@@ -1,6 +1,7 @@
 package schist
 
 import (
+	"context"
 	"fmt"
 	"strings"
 
@@ -103,8 +104,12 @@ func basicOps() []OpDef {
 				c.Spec.To = strings.ToUpper(to.ID[:8]) + to.ID[8:] // another spelling of the same hex id
 				c.Mut = "recipient-hex-case"
 			}
+			if c.Mut == "" && r.Chance(0.06) {
+				rspRespellSender(h, r, c, r.Chance(0.5))
+			}
 			return c
 		}},
+		rspOp("send"), rspOp("send"), rspOp("sc"),
 		{Name: "data", Tags: []string{"core"}, Build: func(h *Hist, r *mon.Rand) *Call {
 			from := h.anyWallet(r)
 			return &Call{Name: "data", Spec: world.TxnSpec{From: from, To: "", Value: Coin(h.amount(r, 0) % 3), Fee: Coin(h.fee(r)), Type: transaction.TxnTypeData, Data: fmt.Sprintf("payload-%d", r.Intn(1000))}}
@@ -206,6 +211,125 @@ func basicOps() []OpDef {
 			return &Call{Name: "faucet.refill", Spec: world.TxnSpec{From: from, To: faucetsc.ADDRESS, Value: Coin(h.amount(r, bal)), Fee: Coin(h.fee(r) % 1000), Type: transaction.TxnTypeSmartContract, Func: "refill", Input: map[string]string{}}}
 		}},
 	}
+}
+
+// ---- another spelling of the SENDER id -------------------------------------------------------------------------------------------
+//
+// Client ids are hex strings; the state trie branches on hex digits, so "AB12.." and "ab12.." can name the same balance leaf
+// while every map keyed by the id string treats them as two accounts. The only thing that pins a sender to the canonical
+// (lower-case) spelling is the admission check id == hash(public key). These calls carry the wallet's own key and a valid
+// signature over the respelled id; they go through the real admission checks first (Meta["admission"], see Hist.Submit):
+// a transaction is applied only if a node would have let it into a block.
+
+// rspAdmit are the checks every node runs on a received transaction and on the transactions of a received block before
+// Chain.UpdateState sees them.
+func rspAdmit(h *Hist) func(t *transaction.Transaction) error {
+	return func(t *transaction.Transaction) error {
+		if err := t.ComputeProperties(); err != nil {
+			return err
+		}
+		return t.ValidateWrtTime(context.Background(), h.W.Now)
+	}
+}
+
+// rspUpper upper-cases the hex letters among the first n characters of an id.
+func rspUpper(id string, n int) string {
+	if n > len(id) {
+		n = len(id)
+	}
+	return strings.ToUpper(id[:n]) + id[n:]
+}
+
+// rspRespellSender turns a built call into the same call sent under another spelling of the sender's own id (hash and
+// signature are recomputed over the respelled id with the wallet's own key). toSelf: the recipient becomes the canonical id.
+func rspRespellSender(h *Hist, r *mon.Rand, c *Call, toSelf bool) bool {
+	from := c.Spec.From
+	n := []int{1, 1, 2, 2, 3, 8, 64}[r.Intn(7)]
+	alias := rspUpper(from.ID, n)
+	if alias == from.ID {
+		if alias = rspUpper(from.ID, 64); alias == from.ID {
+			return false
+		}
+	}
+	if toSelf {
+		c.Spec.To = from.ID
+	}
+	if c.Meta == nil {
+		c.Meta = map[string]interface{}{}
+	}
+	c.Mut = "sender-hex-case"
+	c.Meta["sender_alias"] = alias
+	c.Meta["admission"] = rspAdmit(h)
+	c.Meta["post_sign"] = func(t *transaction.Transaction) {
+		t.ClientID = alias
+		t.Hash = t.ComputeHash()
+		t.Signature = from.Sign(t.Hash)
+	}
+	prev := c.After
+	c.After = func(h *Hist, o *TxnObs) {
+		if o.Outcome != "rejected" {
+			// the generator's nonce memory follows the account (one trie leaf), not the spelling
+			h.RefNonce[from.ID] += h.RefNonce[alias]
+			delete(h.RefNonce, alias)
+		}
+		if prev != nil {
+			prev(h, o)
+		}
+	}
+	return true
+}
+
+// rspOp builds sends ("send") or contract calls ("sc") from a respelled sender id: to the wallet's own canonical id, to another
+// wallet, to a contract.
+func rspOp(kind string) OpDef {
+	return OpDef{Name: "respelled-sender." + kind, Tags: []string{"core"}, Build: func(h *Hist, r *mon.Rand) *Call {
+		// a funded wallet whose id starts with a hex letter (the first characters are the ones the trie branches on)
+		var from *world.Wallet
+		for i := 0; i < 16; i++ {
+			w := h.anyWallet(r)
+			if bal, _ := h.Bal(h.Cur, w.ID); bal == 0 {
+				continue
+			}
+			if rspUpper(w.ID, 1) != w.ID || (from == nil && rspUpper(w.ID, 3) != w.ID) {
+				from = w
+				if rspUpper(w.ID, 1) != w.ID {
+					break
+				}
+			}
+		}
+		if from == nil {
+			return nil
+		}
+		bal, _ := h.Bal(h.Cur, from.ID)
+		v := 1 + r.U64()%(bal/8+1)
+		if r.Chance(0.15) {
+			v = h.amount(r, bal)
+		}
+		var c *Call
+		toSelf := false
+		if kind == "send" {
+			c = &Call{Name: "send", Spec: world.TxnSpec{From: from, To: h.anyWallet(r).ID, Value: Coin(v), Fee: Coin(h.fee(r)), Type: transaction.TxnTypeSend}}
+			toSelf = r.Chance(0.7)
+		} else {
+			switch r.Intn(3) {
+			case 0:
+				c = &Call{Name: "faucet.refill", Spec: world.TxnSpec{From: from, To: faucetsc.ADDRESS, Value: Coin(v), Fee: Coin(h.fee(r) % 1000), Type: transaction.TxnTypeSmartContract, Func: "refill", Input: map[string]string{}}}
+			case 1:
+				c = &Call{Name: "faucet.pour", Spec: world.TxnSpec{From: from, To: faucetsc.ADDRESS, Value: Coin([]uint64{0, 1, 1e10}[r.Intn(3)]), Fee: Coin(h.fee(r) % 1000), Type: transaction.TxnTypeSmartContract, Func: "pour", Input: map[string]string{}}}
+			default:
+				// the probe contract pays the canonical id / takes the sent value from the respelled one
+				steps := []world.ProbeStep{{From: "sender", To: from.ID, Amount: v}, {From: "sc", To: from.ID, Amount: 1 + r.U64()%1e6}}
+				if r.Chance(0.5) {
+					steps = steps[:1]
+				}
+				c = &Call{Name: "probe.run", Meta: map[string]interface{}{"probe_steps": steps}, Spec: world.TxnSpec{From: from, To: world.ProbeAddress, Value: Coin(v), Fee: Coin(h.fee(r) % 1000), Type: transaction.TxnTypeSmartContract, Func: "run", Input: world.ProbeInput{Steps: steps}}}
+			}
+		}
+		if !rspRespellSender(h, r, c, toSelf) {
+			return nil
+		}
+		return c
+	}}
 }
 
 // replayOp resubmits a previously applied signed transaction unchanged.
